@@ -21,6 +21,8 @@ struct stmt_rec
     bool is_rollback = false;
     int rc;           // last result of sqlite3_step
     std::string sql;  // statement text (unexpanded)
+    long chg = 0;     // rows changed while this statement was stepped (sqlite3_total_changes delta, triggers included)
+    const char* cls = "read";  // "begin" | "commit" | "rollback" | "read" | "write" (transaction-discipline spec)
 };
 
 struct zrec
@@ -39,6 +41,9 @@ int n_writes();                        // stepped statements that were not read-
 void set_fault(int k);                 // fail the k-th prepared statement at its first step (0 = off)
 void set_fault_rc(int rc);             // result code used for injected faults (default SQLITE_IOERR)
 bool fault_fired();
+constexpr int CRASH_EXIT = 42;
+void set_crash(int k);                 // _exit(CRASH_EXIT) right before the k-th prepared statement is first stepped (0 = off);
+                                       // only meaningful in a forked child that owns its own connection
 void set_logging(bool on);             // keep the sql text log (off = only counters)
 
 // zlib hand-offs -----------------------------------------------------------------------
